@@ -535,6 +535,23 @@ impl System {
         Ok(sys)
     }
 
+    /// Merge `bytecode` into the running environment as a new process (no result requested).
+    pub fn start_background(&mut self, bytecode: Bytecode) -> Result<ProcessId, String> {
+        self.env
+            .start_process(Some(bytecode))
+            .map_err(|e| format!("start_process: {:?}", e))
+    }
+
+    /// Merge `bytecode` as the entry process of a system booted without one, and request its result.
+    pub fn start_entry(&mut self, bytecode: Bytecode) -> Result<(), String> {
+        let pid = self.start_background(bytecode)?;
+        self.entry_pid = pid;
+        self.request_id = None;
+        self.entry_result = None;
+        self.issue_request();
+        Ok(())
+    }
+
     fn issue_request(&mut self) {
         match self.env.request_result(self.entry_pid, None) {
             Ok(id) => self.request_id = Some(id),
